@@ -82,6 +82,15 @@ func c01Scenarios(thorough bool) []c01Scenario {
 			},
 			Requests: []SetReqOrCall{br.build(), a.build()}},
 		reqs: []c01Req{br, a}})
+	// three overlapping Sets: T1 alone, an unrelated target, then T1+T2 (the chain of T1's proposals must be in log order
+	// although the direct predecessor of the third names other targets)
+	t1 := c01Req{name: "set(T1)", ops: []ReqOp{upd("T1", "/cont/leafA", "one")}}
+	t3 := c01Req{name: "set(T3)", ops: []ReqOp{upd("T3", "/cont/leafA", "two")}}
+	t12 := c01Req{name: "set(T1,T2)", ops: []ReqOp{upd("T1", "/cont/leafA2", "three"), upd("T2", "/cont/leafA", "three")}}
+	out = append(out, c01Scenario{
+		sc: &Scenario{Name: "S3t three overlapping Sets: set(T1), set(T3), set(T1,T2)", Cfg: WorldConfig{Targets: []string{"T1", "T2", "T3"}},
+			Requests: []SetReqOrCall{t1.build(), t3.build(), t12.build()}, MaxStates: 400000},
+		reqs: []c01Req{t1, t3, t12}})
 	// a valid multi-target Set after a rejected one on a shared target (non-initial start state), with a crash
 	out = append(out, c01Scenario{
 		sc: &Scenario{Name: "S3p rejected set(T1,T3) in the past, then set(T1,T2)", Cfg: WorldConfig{Targets: []string{"T1", "T2", "T3"}},
